@@ -1234,6 +1234,13 @@ def ord_lt_eq(it, st, ty, a, b):
     raise Unsupported('Ord on key type ' + ty_str(ty))
 
 
+def M_partial_ord_cmpop(it, ctx, args, st):
+    """<T as PartialOrd>::{lt,le,gt,ge} for the totally ordered key types ord_lt_eq knows (no floats)"""
+    lt, eq = ord_lt_eq(it, st, ctx.self_ty, args[0], args[1])
+    m = ctx.callee.method
+    yield st, {'lt': lt, 'le': z3.Or(lt, eq), 'gt': z3.And(z3.Not(lt), z3.Not(eq)), 'ge': z3.Not(lt)}[m]
+
+
 def M_sort_by_key(it, ctx, args, st):
     """slice::sort_by_key: stable; the key function is called on references to the elements (pure closures: stated)"""
     p, f = args[0], args[1]
@@ -1448,6 +1455,8 @@ def M_vec_extend_from_slice(it, ctx, args, st):
     while isinstance(v, Ptr):
         p, v = v, st.deref(v)
     add = st.deref_all(args[1])
+    if isinstance(add, Seq) and add.items and all(z3.is_expr(x) and z3.is_bv(x) and x.size() == 8 for x in add.items):
+        add = BStr(tuple(add.items), bv(len(add.items)))
     if isinstance(add, BStr):
         if not isinstance(v, BStr):
             st.write(p, bstr(b''))
@@ -1536,6 +1545,32 @@ def it_next_zip2(it, st, itv, fr):
 
 
 EXTRA_ITER_KINDS['zip2'] = it_next_zip2
+
+
+def M_mem_replace(it, ctx, args, st):
+    p = args[0]
+    old = st.deref(p)
+    st.write(p, args[1])
+    yield st, old
+
+
+def M_mem_take(it, ctx, args, st):
+    p = args[0]
+    old = st.deref(p)
+    T = ctx.gargs[0] if ctx.gargs else None
+    if z3.is_expr(old) and z3.is_bool(old):
+        st.write(p, z3.BoolVal(False))
+    elif z3.is_expr(old) and z3.is_bv(old):
+        st.write(p, z3.BitVecVal(0, old.size()))
+    elif isinstance(old, BStr):
+        st.write(p, bstr(b''))
+    elif isinstance(old, Seq):
+        st.write(p, Seq(()))
+    elif isinstance(old, Enum) and last_seg(old.decl.name) == 'Option':
+        st.write(p, it.none)
+    else:
+        raise Unsupported('mem::take of ' + repr(old)[:60])
+    yield st, old
 
 
 def M_refcell_replace(it, ctx, args, st):
@@ -1849,7 +1884,14 @@ def M_fmt_format(it, ctx, args, st):
             nexta += 1
             if a.fields[0] != 'new_display':
                 raise Unsupported('format! argument kind ' + a.fields[0])
-            out = bstr_concat(out, render_display(it, ctx, a.fields[1], a.fields[2], st))
+            piece = render_display(it, ctx, a.fields[1], a.fields[2], st)
+            if not isinstance(piece, BStr):
+                # an opaque Display text (a double): only the template "{}" keeps it whole
+                if bstr_py(out) == b'' and (i + 1 >= len(tmpl) or tmpl[i + 1] == 0):
+                    yield st, piece
+                    return
+                raise Unsupported('format! of an opaque Display text inside a longer template')
+            out = bstr_concat(out, piece)
             i += 1
         else:
             raise Unsupported(f'format! template opcode {b:#x}')
@@ -1938,6 +1980,7 @@ MODELS = [
     (ITER + r'partition::<.*>', M_partition),
     (ITER + r'for_each::<.*>', M_for_each), (ITER + r'rposition::<.*>', M_rposition),
     (r'<' + P + r'cmp::Ordering as ' + P + r'cmp::PartialEq>::(eq|ne)', M_ordering_eq),
+    (r'<\(.*\) as ' + P + r'cmp::PartialOrd>::(lt|le|gt|ge)', M_partial_ord_cmpop),
     (P + r'string::String::with_capacity|' + P + r'string::String::new', M_string_with_capacity), (P + r'string::String::push_str', M_string_push_str),
     (P + r'collections::BTreeSet::<' + P + r'string::String>::contains::<str>', M_btreeset_contains_str),
     (OPT + r'is_some', M_opt_is_some), (OPT + r'is_none', M_opt_is_none), (OPT + r'as_ref', M_opt_as_ref),
@@ -1997,7 +2040,7 @@ MODELS = [
     (P + r'vec::Vec::<.*>::(?:new|with_capacity)', M_vec_new), (P + r'vec::Vec::<.*>::extend_from_slice', M_vec_extend_from_slice), (P + r'vec::Vec::<.*>::len', M_vec_len), (P + r'vec::Vec::<.*>::is_empty', M_vec_is_empty),
     (P + r'vec::Vec::<.*>::push', M_vec_push),
     (r'<' + P + r'vec::Vec<.*> as ' + P + r'ops::Deref(Mut)?>::deref(_mut)?', M_vec_deref),
-    (P + r'cell::RefCell::<.*>::borrow(_mut)?', M_refcell_borrow), (P + r'cell::RefCell::<.*>::new', M_refcell_new), (P + r'cell::RefCell::<.*>::replace', M_refcell_replace), (P + r'slice::<impl \[u8\]>::split_at', M_slice_split_at), (ITER + r'zip::<.*>', M_iter_zip), (r'<\[u8\] as ' + P + r'ops::Index<' + P + r'ops::Range\w*(?:<usize>)?>>::index', M_bytes_index_range), (P + r'str::<impl str>::strip_prefix::<char>', M_strip_prefix_char),
+    (P + r'cell::RefCell::<.*>::borrow(_mut)?', M_refcell_borrow), (P + r'cell::RefCell::<.*>::new', M_refcell_new), (P + r'cell::RefCell::<.*>::replace', M_refcell_replace), (P + r'mem::replace::<.*>', M_mem_replace), (P + r'mem::take::<.*>', M_mem_take), (P + r'slice::<impl \[u8\]>::split_at', M_slice_split_at), (ITER + r'zip::<.*>', M_iter_zip), (r'<\[u8\] as ' + P + r'ops::Index<' + P + r'ops::Range\w*(?:<usize>)?>>::index', M_bytes_index_range), (P + r'str::<impl str>::strip_prefix::<char>', M_strip_prefix_char),
     (r'<' + P + r'cell::Ref(Mut)?<.*> as ' + P + r'ops::Deref(Mut)?>::deref(_mut)?', M_guard_deref),
     (P + r'boxed::Box::<.*>::new_uninit', M_box_new_uninit), (P + r'boxed::box_assume_init_into_vec_unsafe::<.*>', M_box_assume_init_into_vec),
     (P + r'boxed::Box::<.*>::new', M_box_new), (P + r'sync::Arc::<.*>::new', M_arc_new),
